@@ -848,8 +848,16 @@ func genZmodemGroup(c *ctx) {
 func c19Oracles(c *ctx, sc *c19Scenario, r *c19Result, args []string) {
 	detail := fmt.Sprintf("scenario launch=%s autoexit=%d events=%s horizon=%d; observed %s",
 		sc.launch, sc.autoexit, args[len(args)-1], sc.horizon, r.canon)
+	earlyCtrlC := false
+	for i, e := range sc.evs {
+		if i > 0 && e.kind == 'i' && len(e.data) == 1 && e.data[0] == 3 && sc.evs[i-1].kind == 's' && e.t == sc.evs[i-1].t+40 {
+			earlyCtrlC = true
+		}
+	}
 	key := func(kind string) string {
-		if sc.launch != "ok" {
+		// one defect, two triggers: handleZmodemError runs while no helper exists (launch
+		// failure / chooser error, or Ctrl-C before the helper was started)
+		if sc.launch != "ok" || earlyCtrlC {
 			return "zmodem-launch-failure-no-cleanup"
 		}
 		return kind + ":" + strings.Join(args, "/")
